@@ -42,7 +42,8 @@ K3B = [("0", -1), ("1", -1), ("4", 7)]
 def configs(quick):
     if quick:
         return [("2col", (2, 3, 3, K3)), ("1col-rich", (1, 3, 3, K7)), ("3col", (3, 2, 2, K3B))]
-    return [("2col", (2, 4, 3, K3)), ("2col-k4", (2, 3, 3, K4)), ("1col-rich", (1, 5, 3, K7)), ("3col", (3, 3, 3, K3B))]
+    # (TLC evaluates ~150 grid states per second per worker group: sizes chosen for a 10-15 minute thorough run)
+    return [("2col", (2, 3, 3, K3)), ("2col-k4", (2, 3, 3, K4)), ("1col-rich", (1, 4, 3, K7)), ("3col", (3, 2, 3, K3B))]
 
 
 def decode_real(text):
